@@ -76,6 +76,10 @@ def symbolic_params(ctx, con, fi):
 def check_exit(I, con, bound, old_heap, tr_old_len, outcome, value):
     """obligations at a function exit"""
     ctx = I.ctx
+    if outcome == "return" and con.result is not None and not isinstance(con.result, TNone):
+        from .objects import materialise_for
+
+        value = materialise_for(I, value, con.result)   # a returned display where the contract speaks of a heap container
     new_heap = ctx.snapshot()
     spec = Spec(ctx, old_heap, new_heap)
     spec.mode = "prove"
@@ -90,13 +94,9 @@ def check_exit(I, con, bound, old_heap, tr_old_len, outcome, value):
             if value is None and not isinstance(rty, (TAny, TOpt)):
                 ctx.oblige("%s/result-shape" % name, False, kind="post")
             else:
-                if isinstance(value, VDict) and getattr(value, "sym", None) is None and isinstance(rty, TMap):
-                    # a dict display with concrete keys returned where the contract speaks of a map: same content as a heap map
-                    m = ctx.alloc(None, rty)
-                    ctx.heap["$mhas"] = z3.Store(ctx.field_array("$mhas"), ctx.ref_id(m), z3.K(Z.Val, z3.BoolVal(False)))
-                    for k, v in value.items.items():
-                        I.B.map_set(I, m, k, v)
-                    value = m
+                from .objects import materialise_for
+
+                value = materialise_for(I, value, rty)
                 sv = ctx.to_val(value)
                 rty = ctx.resolve_ty(rty)
                 ctx.oblige("%s/result-shape" % name, rty.inv(sv.t, goal=True), kind="post")
